@@ -108,6 +108,36 @@ def gen_distributive(rng, n, sum_op, prod_op, carrier):
     return out
 
 
+def gen_mixed(rng, n):
+    """three ops in one expression (non-negative data): a product with a factor that is a max/min-reduced sum, a sum
+    of max-reduced products, unary ops over reductions - shapes on which a distribution/fusion rule must NOT fire"""
+    from lang.prog import binary, leaf, num, reduce_, unary
+    out = []
+    for _ in range(n):
+        def L(i):
+            vs = [v for v in VARS if rng.random() < 0.55]
+            return leaf("m%d" % i, tuple(vs), (), "nonneg")
+        a, b, c, d = L(0), L(1), L(2), L(3)
+        mm = rng.choice(["max", "min"])
+        kind = rng.choice(["mul_of_reduced_sum", "sum_of_reduced_prod", "neg_of_reduce", "nested3", "prod_sum_max"])
+        red = tuple(v for v in VARS if rng.random() < 0.5) or (VARS[0],)
+        red2 = tuple(v for v in VARS if rng.random() < 0.4)
+        if kind == "mul_of_reduced_sum":
+            e = binary("mul", a, reduce_(mm, binary("add", b, c), red))
+        elif kind == "sum_of_reduced_prod":
+            e = binary("add", a, reduce_(mm, binary("mul", b, c), red))
+        elif kind == "neg_of_reduce":
+            e = unary("neg", reduce_(rng.choice([mm, "add"]), binary(rng.choice(["add", "mul"]), a, b), red))
+        elif kind == "nested3":
+            e = reduce_("add", binary("mul", a, reduce_(mm, binary("add", b, binary("mul", c, d)), red)), red2 or red)
+        else:
+            e = binary("mul", binary("add", a, b), reduce_(mm, binary("mul", c, d), red))
+        if red2 and kind != "nested3":
+            e = reduce_(rng.choice(["add", mm]), e, red2)
+        out.append(e)
+    return out
+
+
 def einsum_instances(tier):
     """funsor.einsum.einsum(...) for all equations with <= 3 (|4) operands x 3 (|4) symbols (operand = subset of symbols)"""
     syms = "abc" if tier == "quick" else "abcd"
@@ -202,6 +232,11 @@ def instances(tier, seed):
                     continue
                 n += 1
                 out.append(("prog", sch, sr, p, False, False))
+    for p in gen_mixed(rng, 40 if tier == "quick" else 400):
+        for sch in ("optimizer", "unfold", "normalize", "lazy_normalize_eager", "normalize>optimizer"):
+            if tier == "quick" and rng.random() < 0.4:
+                continue
+            out.append(("prog", sch, ("mixed", "mixed", "nonneg"), p, False, False))
     for op, car, p in gen_sameop(rng, 40 if tier == "quick" else 400):
         for sch in (SCHEDS + ["immediate"] if tier != "quick" else ["normalize", "lazy_normalize_eager", "immediate"]):
             out.append(("prog", sch, (op, op, car), p, False, False))
